@@ -344,7 +344,7 @@ let dispatch (op : string) (a : string array) : string =
   match op with
   | "name" -> op_name (unhex a.(0)) (int_of_string a.(1))
   | "script" | "ascript" -> op_script a
-  | "aiter" -> "-"
+  | "aiter" | "net" -> "-"
   | "text" -> op_text (unhex a.(0))
   | "textpair" -> op_textpair (unhex a.(0)) (unhex a.(1))
   | "wname" -> op_wname (unhex a.(0)) (int_of_string a.(1))
